@@ -111,6 +111,7 @@ def describe(f):
             growth.setdefault(_ntext(n.value.func.value), set()).add("method")
         elif isinstance(n, ast.AugAssign) and isinstance(n.op, ast.Add) and isinstance(n.value, (ast.List, ast.ListComp)):
             growth.setdefault(_ntext(n.target), set()).add("aug")
+    for_iters = sorted(_ntext(n.iter) for n in own_nodes(f) if isinstance(n, ast.For))
     ifs.sort(key=lambda d: d["line"])
     for d in ifs:
         del d["line"]
@@ -119,31 +120,33 @@ def describe(f):
     if len(body) >= 2 and isinstance(body[-1], ast.Return) and isinstance(body[-1].value, ast.Name) and isinstance(body[-2], ast.Assign) and len(body[-2].targets) == 1 \
             and isinstance(body[-2].targets[0], ast.Name) and body[-2].targets[0].id == body[-1].value.id:
         ret_temp = body[-1].value.id
-    return {"ifs": ifs, "ifexps": sorted(ifexps), "growth": {k: sorted(v) for k, v in growth.items()}, "ret_temp": ret_temp}
+    return {"ifs": ifs, "ifexps": sorted(ifexps), "growth": {k: sorted(v) for k, v in growth.items()}, "ret_temp": ret_temp, "for_iters": for_iters}
 
 
 # ------------------------------------------------------------------------------------------------ 1. helpers
 def _helper_shape(fn):
-    """(kind, stmts, ret expr) for an inlinable helper, else None. kind 'expr' (single return) or 'stmts'"""
+    """(kind, stmts, ret expr, stored params) for an inlinable helper, else None. kind 'expr' (single return), 'stmts' (statements then one
+    final return) or 'proc' (no return at all)"""
     if fn.decorator_list or fn.args.vararg or fn.args.kwarg or fn.args.kwonlyargs or fn.args.posonlyargs:
         return None
     body = list(fn.body)
     if body and isinstance(body[0], ast.Expr) and isinstance(body[0].value, ast.Constant) and isinstance(body[0].value.value, str):
         body = body[1:]
-    if not body or not isinstance(body[-1], ast.Return) or body[-1].value is None:
+    if not body:
         return None
+    has_ret = isinstance(body[-1], ast.Return) and body[-1].value is not None
     for n in ast.walk(fn):
         if isinstance(n, (ast.Yield, ast.YieldFrom, ast.Await, ast.Global, ast.Nonlocal, ast.FunctionDef, ast.AsyncFunctionDef, ast.Lambda)) and n is not fn:
             return None
-        if isinstance(n, ast.Return) and n is not body[-1]:
+        if isinstance(n, ast.Return) and not (has_ret and n is body[-1]):
             return None
         if isinstance(n, ast.Call) and isinstance(n.func, ast.Name) and n.func.id == fn.name:
             return None
     params = [a.arg for a in fn.args.args]
-    for n in ast.walk(fn):
-        if isinstance(n, ast.Name) and isinstance(n.ctx, ast.Store) and n.id in params:
-            return None
-    return ("expr" if len(body) == 1 else "stmts", body[:-1], body[-1].value)
+    stored = {n.id for n in ast.walk(fn) if isinstance(n, ast.Name) and isinstance(n.ctx, ast.Store) and n.id in params}
+    if not has_ret:
+        return ("proc", body, None, stored)
+    return ("expr" if len(body) == 1 else "stmts", body[:-1], body[-1].value, stored)
 
 
 def _simple(e):
@@ -169,6 +172,8 @@ class _Subst(ast.NodeTransformer):
     def visit_Name(self, node):
         if node.id in self.mapping and isinstance(node.ctx, ast.Load):
             return ast.copy_location(copy.deepcopy(self.mapping[node.id]), node)
+        if node.id in self.mapping and isinstance(self.mapping[node.id], ast.Name):
+            return ast.copy_location(ast.Name(id=self.mapping[node.id].id, ctx=node.ctx), node)
         return node
 
 
@@ -196,96 +201,144 @@ def _bind_args(fn, call, is_method):
     return mapping
 
 
+def _defs_with_parents(tree):
+    """[(qualname, function node, parent node)] for every function of the module (methods, nested functions)"""
+    out = []
+
+    def rec(owner, body, prefix):
+        for s_ in body:
+            if isinstance(s_, ast.ClassDef):
+                rec(s_, s_.body, prefix + s_.name + ".")
+            elif isinstance(s_, (ast.FunctionDef, ast.AsyncFunctionDef)):
+                out.append((prefix + s_.name, s_, owner))
+                rec(s_, s_.body, prefix + s_.name + ".")
+    rec(tree, tree.body, "")
+    return out
+
+
+def _same_expr(a, b):
+    return ast.dump(a, include_attributes=False).replace("Store()", "Load()") == ast.dump(b, include_attributes=False).replace("Store()", "Load()")
+
+
 def inline_helpers(tree, relpath):
+    """inline the helpers that the reference does not have: private module-level functions, private methods (called through self, also from
+    subclasses defined in the module) and functions nested in the function that calls them"""
     ref = _ref().get(relpath)
     if ref is None or "__functions__" not in ref:
         return []
     known = set(ref["__functions__"])
     done = []
-    # candidates: new private functions at module level or in a class body
-    cands = {}
-    for qn, fn in qualnames(tree):
-        if qn in known or not fn.name.startswith("_") or fn.name.startswith("__") or qn.count(".") > 1:
-            continue
-        shape = _helper_shape(fn)
-        if shape is not None:
-            cands[qn] = (fn, shape)
-    if not cands:
-        return []
-    for qn, (fn, (kind, stmts, ret)) in cands.items():
-        is_method = "." in qn
-        if is_method and (not fn.args.args):
-            continue
-        cls = qn.split(".")[0] if is_method else None
+    for _round in range(3):
+        progress = False
+        for qn, fn, owner in _defs_with_parents(tree):
+            if qn in known or fn.name.startswith("__"):
+                continue
+            nested = isinstance(owner, (ast.FunctionDef, ast.AsyncFunctionDef))
+            is_method = isinstance(owner, ast.ClassDef)
+            if not nested and not fn.name.startswith("_"):
+                continue
+            shape = _helper_shape(fn)
+            if shape is None:
+                continue
+            kind, stmts, ret, stored = shape
+            if is_method and not fn.args.args:
+                continue
 
-        def is_call(n):
-            if not isinstance(n, ast.Call):
-                return False
-            if is_method:
-                return isinstance(n.func, ast.Attribute) and n.func.attr == fn.name and isinstance(n.func.value, ast.Name) and n.func.value.id in ("self", "cls")
-            return isinstance(n.func, ast.Name) and n.func.id == fn.name
-        sites = [n for n in ast.walk(tree) if is_call(n)]
-        refs = [n for n in ast.walk(tree) if (isinstance(n, ast.Name) and n.id == fn.name and not is_method) or (isinstance(n, ast.Attribute) and n.attr == fn.name and is_method)]
-        if not sites or len(refs) != len(sites):
-            continue                     # used as a value somewhere: leave
-        plan = []
-        ok = True
-        for host_qn, host in qualnames(tree):
-            if host is fn:
-                continue
-            if is_method and not host_qn.startswith(cls + "."):
-                continue
-            for block in blocks_of(host):
-                for i, st in enumerate(block):
-                    inner = [n for n in ast.walk(st) if is_call(n)] if not isinstance(st, (ast.If, ast.For, ast.While, ast.With, ast.Try)) else \
-                        [n for n in ast.walk(st.test if isinstance(st, (ast.If, ast.While)) else st.iter if isinstance(st, ast.For) else ast.Module(body=[], type_ignores=[])) if is_call(n)]
-                    for c in inner:
-                        m = _bind_args(fn, c, is_method)
-                        if m is None:
-                            ok = False
+            def is_call(n):
+                if not isinstance(n, ast.Call):
+                    return False
+                if is_method:
+                    return isinstance(n.func, ast.Attribute) and n.func.attr == fn.name and isinstance(n.func.value, ast.Name) and n.func.value.id in ("self", "cls")
+                return isinstance(n.func, ast.Name) and n.func.id == fn.name
+            scope = owner if nested else tree
+            sites = [n for n in ast.walk(scope) if is_call(n)]
+            refs = [n for n in ast.walk(scope) if (isinstance(n, ast.Name) and n.id == fn.name and not is_method) or (isinstance(n, ast.Attribute) and n.attr == fn.name and is_method)]
+            if not sites or len(refs) != len(sites):
+                continue                     # used as a value somewhere (or never): leave
+            hosts = [(owner.name, owner)] if nested else [(q_, f_) for q_, f_, _ in _defs_with_parents(tree) if f_ is not fn]
+            plan, ok = [], True
+            for host_qn, host in hosts:
+                for block in blocks_of(host):
+                    for i, st in enumerate(block):
+                        if st is fn or isinstance(st, (ast.FunctionDef, ast.AsyncFunctionDef, ast.ClassDef)):
                             continue
-                        uses = {p: sum(1 for n in ast.walk(ast.Module(body=list(stmts) + [ast.Expr(value=ret)], type_ignores=[])) if isinstance(n, ast.Name) and n.id == p) for p in m}
-                        if any(_has_call(a) and uses[p] > 1 for p, a in m.items()):
-                            ok = False
-                            continue
-                        if kind == "expr":
-                            plan.append(("expr", block, i, st, c, m))
+                        if isinstance(st, (ast.If, ast.While)):
+                            inner = [n for n in ast.walk(st.test) if is_call(n)]
+                        elif isinstance(st, ast.For):
+                            inner = [n for n in ast.walk(st.iter) if is_call(n)]
+                        elif isinstance(st, (ast.With, ast.Try)):
+                            inner = []
                         else:
-                            direct = (isinstance(st, (ast.Assign, ast.Return, ast.Expr)) and st.value is c)
-                            if not direct or not all(_simple(a) for a in m.values()):
+                            inner = [n for n in ast.walk(st) if is_call(n)]
+                        for c in inner:
+                            if any(p[4] is c for p in plan):
+                                continue
+                            m = _bind_args(fn, c, is_method)
+                            if m is None:
                                 ok = False
                                 continue
-                            plan.append(("stmts", block, i, st, c, m))
-        if not ok or len(plan) != len(sites):
-            continue
-        # apply (statement-level ones from the end of each block backwards so that indices stay valid)
-        for entry in sorted(plan, key=lambda e: -e[2]):
-            k, block, i, st, c, m = entry
-            new_ret = _Subst(m).visit(copy.deepcopy(ret))
-            if k == "expr":
-                _replace_child(st, c, new_ret)
-            else:
-                new_stmts = [_Subst(m).visit(copy.deepcopy(s)) for s in stmts]
-                for s in new_stmts:
-                    for n in ast.walk(s):
+                            body_mod = ast.Module(body=list(stmts) + ([ast.Expr(value=ret)] if ret is not None else []), type_ignores=[])
+                            uses = {p: sum(1 for n in ast.walk(body_mod) if isinstance(n, ast.Name) and n.id == p) for p in m}
+                            if any(_has_call(a_) and uses[p] > 1 for p, a_ in m.items()):
+                                ok = False
+                                continue
+                            if any(p in stored and not isinstance(m[p], ast.Name) for p in m):
+                                ok = False
+                                continue
+                            if kind == "expr":
+                                plan.append(("expr", block, i, st, c, m))
+                            else:
+                                direct = isinstance(st, (ast.Assign, ast.Return, ast.Expr)) and st.value is c
+                                if not direct or not all(_simple(a_) for a_ in m.values()) or (kind == "proc" and not isinstance(st, ast.Expr)):
+                                    ok = False
+                                    continue
+                                plan.append((kind, block, i, st, c, m))
+            if not ok or len(plan) != len(sites):
+                continue
+            for entry in plan:
+                k, block, i, st, c, m = entry
+                if k == "expr":
+                    _replace_child(st, c, _Subst(m).visit(copy.deepcopy(ret)))
+                    continue
+                new_stmts = [_Subst(m).visit(copy.deepcopy(s_)) for s_ in stmts]
+                for s_ in new_stmts:
+                    for n in ast.walk(s_):
                         if hasattr(n, "lineno"):
                             n.lineno = st.lineno
                             n.end_lineno = getattr(st, "end_lineno", st.lineno)
-                if isinstance(st, ast.Expr):
-                    tail = []
-                else:
+                tail = []
+                if k == "stmts" and not isinstance(st, ast.Expr):
+                    new_ret = _Subst(m).visit(copy.deepcopy(ret))
                     _replace_child(st, c, new_ret)
                     tail = [st]
-                idx = block.index(st)
+                    if isinstance(st, ast.Assign) and len(st.targets) == 1:
+                        t = st.targets[0]
+                        if _same_expr(t, st.value):
+                            tail = []            # x = x / (a, b) = (a, b): the helper's locals carry the caller's names
+                        elif isinstance(t, ast.Tuple) and isinstance(st.value, ast.Tuple) and len(t.elts) == len(st.value.elts):
+                            pairs = [(a_, b_) for a_, b_ in zip(t.elts, st.value.elts) if not _same_expr(a_, b_)]
+                            if not pairs:
+                                tail = []
+                            else:
+                                # (a, b, c) = (x, b, z): plain assignments for the positions that differ (no target is read by a later value)
+                                tnames = {ast.unparse(a_) for a_, _ in pairs}
+                                if not any(isinstance(n, ast.Name) and n.id in tnames for _, b_ in pairs for n in ast.walk(b_)):
+                                    tail = [ast.copy_location(ast.Assign(targets=[a_], value=b_, lineno=st.lineno), st) for a_, b_ in pairs]
+                idx = next(j for j, x in enumerate(block) if x is st)
                 block[idx:idx + 1] = new_stmts + tail
-        # drop the helper
-        for owner in ast.walk(tree):
-            b = getattr(owner, "body", None)
-            if isinstance(b, list) and fn in b:
-                b.remove(fn)
-                if not b:
-                    b.append(ast.Pass())
-        done.append(qn)
+                if not block:
+                    block.append(ast.copy_location(ast.Pass(), st))
+            for node in ast.walk(tree):
+                b_ = getattr(node, "body", None)
+                if isinstance(b_, list) and any(x is fn for x in b_):
+                    b_[:] = [x for x in b_ if x is not fn]
+                    if not b_:
+                        b_.append(ast.Pass())
+            done.append(qn)
+            progress = True
+            break
+        if not progress:
+            break
     if done:
         ast.fix_missing_locations(tree)
     return done
@@ -474,7 +527,29 @@ def _mutations(st):
     return out
 
 
+def split_tuple_assignments(f, ref_names):
+    """a, b = x, y  ->  a = x; b = y   when a target is a local the reference does not have and no target is read by a value"""
+    n = 0
+    for block in blocks_of(f):
+        i = 0
+        while i < len(block):
+            st = block[i]
+            if isinstance(st, ast.Assign) and len(st.targets) == 1 and isinstance(st.targets[0], ast.Tuple) and isinstance(st.value, ast.Tuple) \
+                    and len(st.targets[0].elts) == len(st.value.elts) and all(isinstance(t, ast.Name) for t in st.targets[0].elts) \
+                    and any(t.id not in ref_names for t in st.targets[0].elts):
+                tn = {t.id for t in st.targets[0].elts}
+                if not any(isinstance(x, ast.Name) and x.id in tn for v in st.value.elts for x in ast.walk(v)):
+                    block[i:i + 1] = [ast.copy_location(ast.Assign(targets=[t], value=v, lineno=st.lineno), st) for t, v in zip(st.targets[0].elts, st.value.elts)]
+                    n += 1
+                    continue
+            i += 1
+    if n:
+        ast.fix_missing_locations(f)
+    return n
+
+
 def inline_temporaries(f, r):
+    split_tuple_assignments(f, {n for n, _ in r.get("locals", [])})
     seq, params = binding_sequence(f)
     ref_names = [n for n, _ in r.get("locals", [])]
     cur_names = [n for n, _ in seq]
@@ -556,7 +631,7 @@ def inline_temporaries(f, r):
     if not good:
         return []
     chosen = None
-    if set(cur_names) - set(good) <= set(ref_names):
+    if set(cur_names) - set(good) <= set(ref_names) or set(ref_names) <= set(cur_names):
         # every other local is a local of the reference: the new ones are added temporaries (other locals may have disappeared)
         good = sorted(good, key=lambda v_: cands[v_][0].lineno)
         for v in good:
@@ -681,6 +756,66 @@ def align_growth(f, r):
     return n_changed
 
 
+# ------------------------------------------------------------------------------------------------ 6. loops
+def normalise_loops(f, r):
+    """loops the reference does not have in this form:
+       for i, v in enumerate(S): ... v ...        ->  for i in range(len(S)): ... S[i] ...      (S a name / attribute not re-bound in the loop)
+       for v in (a, b, c): body   /  for k, v in enumerate((a, b, c)): body   ->  the body once per element (no break / continue / else)"""
+    ref_iters = set(r.get("for_iters", []))
+    log = []
+    for block in blocks_of(f):
+        i = 0
+        while i < len(block):
+            st = block[i]
+            if not isinstance(st, ast.For) or st.orelse or _ntext(st.iter) in ref_iters:
+                i += 1
+                continue
+            it = st.iter
+            enum = isinstance(it, ast.Call) and isinstance(it.func, ast.Name) and it.func.id == "enumerate" and len(it.args) == 1 and not it.keywords
+            seq = it.args[0] if enum else it
+            tnames = [n.id for n in ast.walk(st.target) if isinstance(n, ast.Name)]
+            body_mod = ast.Module(body=st.body, type_ignores=[])
+            stores_in_body = {n.id for n in ast.walk(body_mod) if isinstance(n, ast.Name) and isinstance(n.ctx, ast.Store)}
+            used_after = any(isinstance(n, ast.Name) and n.id in tnames and n.lineno > getattr(st, "end_lineno", st.lineno) for n in own_nodes(f))
+            jumps = any(isinstance(n, (ast.Break, ast.Continue)) for n in ast.walk(body_mod))
+            if isinstance(seq, (ast.Tuple, ast.List)) and 1 <= len(seq.elts) <= 8 and not jumps and not used_after and not (set(tnames) & stores_in_body) \
+                    and all(_simple(e) for e in seq.elts):
+                if enum and isinstance(st.target, ast.Tuple) and len(st.target.elts) == 2 and all(isinstance(e, ast.Name) for e in st.target.elts):
+                    kname, vname = st.target.elts[0].id, st.target.elts[1].id
+                elif not enum and isinstance(st.target, ast.Name):
+                    kname, vname = None, st.target.id
+                else:
+                    i += 1
+                    continue
+                new = []
+                for k, e in enumerate(seq.elts):
+                    m = {vname: e}
+                    if kname:
+                        m[kname] = ast.Constant(value=k)
+                    for s_ in st.body:
+                        c = _Subst(m).visit(copy.deepcopy(s_))
+                        new.append(c)
+                block[i:i + 1] = new
+                log.append(("unrolled", st.lineno))
+                i += len(new)
+                continue
+            if enum and isinstance(st.target, ast.Tuple) and len(st.target.elts) == 2 and all(isinstance(e, ast.Name) for e in st.target.elts) \
+                    and isinstance(seq, (ast.Name, ast.Attribute)) and _simple(seq) and not used_after:
+                kname, vname = st.target.elts[0].id, st.target.elts[1].id
+                roots = {n.id for n in ast.walk(seq) if isinstance(n, ast.Name)}
+                if vname not in stores_in_body and kname not in stores_in_body and not (roots & stores_in_body):
+                    sub = ast.Subscript(value=copy.deepcopy(seq), slice=ast.Name(id=kname, ctx=ast.Load()), ctx=ast.Load())
+                    st.body = [_Subst({vname: sub}).visit(s_) for s_ in st.body]
+                    st.target = ast.copy_location(ast.Name(id=kname, ctx=ast.Store()), st.target)
+                    st.iter = ast.copy_location(ast.Call(func=ast.Name(id="range", ctx=ast.Load()), args=[ast.Call(func=ast.Name(id="len", ctx=ast.Load()), args=[copy.deepcopy(seq)],
+                                                                                                                  keywords=[])], keywords=[]), it)
+                    log.append(("enumerate", st.lineno))
+            i += 1
+    if log:
+        ast.fix_missing_locations(f)
+    return log
+
+
 # ------------------------------------------------------------------------------------------------ driver
 def undo_restructurings(tree, relpath):
     """-> {qualname: [what was undone]}"""
@@ -696,6 +831,14 @@ def undo_restructurings(tree, relpath):
         if not isinstance(r, dict) or "ifs" not in r:
             continue
         did = []
+        tv = inline_temporaries(f, r)
+        if tv:
+            did.append(f"inlined temporaries {tv}")
+            _strip(f)
+        lp = normalise_loops(f, r)
+        if lp:
+            did.append(f"loops {lp}")
+            _strip(f)
         ch = align_branches(f, r)
         if ch:
             did.append(f"branches {ch}")
